@@ -11,9 +11,17 @@ package main
 //     configuration (implementation-side oracle; exhaustive when the program
 //     has <= 16 input bits) and reports every concrete differing input;
 //   - emits `lvl` / `sort` op lines tying the Lean models of AssignLevels, of
-//     Compile's level sort and of the GMW schedule to the real code.
+//     Compile's level sort and of the GMW schedule to the real code;
+//   - emits a `topo` op line for every distinct real compiled circuit: the
+//     proved Lean checker absRun must agree with the harness that it is
+//     single-assignment and topologically ordered.
+//
+// Modes: `equiv` (corpus + multiplier width sweep + generated programs),
+// `extreme` (extreme-shape programs, extreme.go), `replay <file>` (one
+// recorded failing case), `probe` / `dump` (debugging aids).
 
 import (
+	"encoding/json"
 	"fmt"
 	"io"
 	"math/big"
@@ -23,6 +31,7 @@ import (
 	"runtime/debug"
 	"sort"
 	"strings"
+	"time"
 
 	"github.com/markkurossi/mpc/circuit"
 	"github.com/markkurossi/mpc/compiler"
@@ -153,7 +162,7 @@ func compileStaged(src string, tgt utils.Target, passes int, wantDumps bool) (re
 	lvByOut := make(map[circuit.Wire]int, len(circ.Gates))
 	for _, g := range cc.Gates {
 		if g.Compiled {
-			lvByOut[g.O.ID()] = g.Level
+			lvByOut[g.O.ID()] = int(g.Level)
 		}
 	}
 	lv := make([]int, len(circ.Gates))
@@ -201,6 +210,20 @@ func wellFormed(c *circuit.Circuit) string {
 		def[g.Output] = true
 	}
 	return ""
+}
+
+// wiresInRange: every wire id of every gate is below NumWires (the
+// simulation can run on the circuit whatever the gate order).
+func wiresInRange(c *circuit.Circuit) bool {
+	if c.Inputs.Size() > c.NumWires || c.Outputs.Size() > c.NumWires {
+		return false
+	}
+	for _, g := range c.Gates {
+		if int(g.Input0) >= c.NumWires || int(g.Output) >= c.NumWires || (g.Op != circuit.INV && int(g.Input1) >= c.NumWires) {
+			return false
+		}
+	}
+	return true
 }
 
 // undefinedOutputs counts output wires that no gate writes (and that are not
@@ -289,9 +312,12 @@ type progCase struct {
 	usesDiv  bool
 	probeSrc string // program with the same inputs that returns the divisor(s) of the raw divisions ("" = none known)
 	usesMult bool
+	rngID    int    // selects the program's input-vector stream (0 = by position in the case list)
+	extreme  *xprog // extreme-shape program (extreme.go): reduced configuration set, correlated input vectors
 }
 
 var reBuilderFrame = regexp.MustCompile(`compiler/circuits\.(New[A-Za-z]+)\(`)
+
 // probes of the fixed corpus: the divisor of every division with a possibly
 // zero divisor
 var fixedProbes = map[string]string{
@@ -359,17 +385,32 @@ type limits struct {
 	maxGatesPair  int // |C|+|C'| above: no checker op line
 	maxGatesLevel int
 	randPasses    int
-	simBudget     int // gate evaluations (x64 lanes) per program
+	simBudget     int  // gate evaluations (x64 lanes) per program
+	maxGatesTopo  int  // circuits above: no `topo` op line (Lean absRun on the real compiled circuit)
+	maxInputsPair int  // programs with more input bits: no checker op line
+	skipRawStages bool // no staged compilation without passes / with ConstPropagate only (extreme programs, quick tier)
+	topoBaseGMW   bool // `topo` ops for the base configuration and the GMW configurations only
 }
 
 func main() {
 	if len(os.Args) < 2 {
-		fmt.Fprintln(os.Stderr, "usage: c09 equiv [flags]")
+		fmt.Fprintln(os.Stderr, "usage: c09 equiv|extreme [flags] | c09 replay <replay.json> | c09 probe <file.mpcl>...")
 		os.Exit(2)
 	}
 	switch os.Args[1] {
 	case "equiv":
 		os.Exit(equiv(os.Args[2:]))
+	case "extreme":
+		os.Exit(extreme(os.Args[2:]))
+	case "replay":
+		os.Exit(replay(os.Args[2:]))
+	case "probe":
+		// debugging aid: compile time and shape of program files
+		devnull, _ := os.OpenFile(os.DevNull, os.O_WRONLY, 0)
+		os.Stdout = devnull
+		for _, f := range os.Args[2:] {
+			probeFile(f)
+		}
 	case "dump":
 		// debugging aid: print generated programs and their compile outcome
 		cf, o := hxlib.ParseCommon("c09", os.Args[2:], nil)
@@ -395,9 +436,11 @@ func equiv(args []string) int {
 		os.Stdout = devnull
 	}
 	rng := hxlib.NewRng(cf.Seed)
-	lim := limits{maxGatesSim: 150000, maxGatesPair: 60000, maxGatesLevel: 12000, randPasses: 4, simBudget: 150e6}
+	lim := limits{maxGatesSim: 150000, maxGatesPair: 60000, maxGatesLevel: 12000, randPasses: 4, simBudget: 150e6,
+		maxGatesTopo: 150000, maxInputsPair: 1 << 20}
 	if cf.Tier == "thorough" {
-		lim = limits{maxGatesSim: 2500000, maxGatesPair: 400000, maxGatesLevel: 40000, randPasses: 16, simBudget: 3e9}
+		lim = limits{maxGatesSim: 2500000, maxGatesPair: 400000, maxGatesLevel: 40000, randPasses: 16, simBudget: 3e9,
+			maxGatesTopo: 2500000, maxInputsPair: 1 << 20}
 	}
 	var cases []progCase
 	if strings.HasPrefix(cf.Extra, "file:") {
@@ -420,28 +463,86 @@ func equiv(args []string) int {
 			cases = append(cases, pc)
 		}
 	}
+	// (the sweep runs before the generated programs - only the first 20 oracle
+	// failures of a run are kept - but does not move their input streams)
+	ncorpus := len(cases)
+	if cf.N > 0 {
+		for k, pc := range mulSweep(hxlib.NewRng(cf.Seed*0x9e3779b97f4a7c15^0x3517), cf.Tier) {
+			pc.rngID = 1000000 + k
+			cases = append(cases, pc)
+		}
+	}
 	for i := 0; i < cf.N; i++ {
 		r := rng.Fork()
 		p := genProgram(r, i)
 		cases = append(cases, progCase{name: fmt.Sprintf("gen:%d", i), src: p.source(false), gen: p, probeSrc: p.probeSource(),
-			usesDiv: p.usesDiv(), usesMult: p.feats["*"]})
+			usesDiv: p.usesDiv(), usesMult: p.feats["*"], rngID: ncorpus + i})
 	}
 	var pairsMeta []map[string]any
 	for idx, pc := range cases {
 		if cf.Only >= 0 && idx != cf.Only {
 			continue
 		}
-		r := hxlib.NewRng(cf.Seed*1000003 + uint64(idx))
+		id := idx
+		if pc.rngID != 0 {
+			id = pc.rngID
+		}
+		r := hxlib.NewRng(cf.Seed*1000003 + uint64(id))
 		runProgram(o, r, idx, pc, lim, &pairsMeta)
 	}
 	o.Meta["pairs"] = pairsMeta
 	return 0
 }
 
+// mulSweep: the multiplier-threshold axis of the quantifier at its width
+// boundaries.  Which multiplier a multiplication gets (array, Karatsuba with
+// which recursion pattern, Wallace) depends on the operand width relative to
+// the threshold, and the Karatsuba split is uneven exactly for odd widths: a
+// seeded sample of widths 9..72 (two thirds odd), each as a truncated product,
+// a multiply-add and a full double-width product, compiled under every
+// threshold and both targets like every other program.  (Its own generator
+// stream: the generated programs of a seed do not move.)
+func mulSweep(r *hxlib.Rng, tier string) []progCase {
+	n := 6
+	if tier == "thorough" {
+		n = 16
+	}
+	var res []progCase
+	seen := map[int]bool{}
+	for len(res) < n {
+		w := 9 + r.Intn(64)
+		if w%2 == 0 && r.Intn(3) != 0 {
+			w++
+		}
+		form := r.Intn(3)
+		if seen[w*4+form] {
+			continue
+		}
+		seen[w*4+form] = true
+		var src string
+		switch form {
+		case 0:
+			src = fmt.Sprintf("package main\nfunc main(a, b uint%d) uint%d {\n\treturn a * b\n}\n", w, w)
+		case 1:
+			src = fmt.Sprintf("package main\nfunc main(a, b uint%d) uint%d {\n\treturn a * b + a\n}\n", w, w)
+		default:
+			src = fmt.Sprintf("package main\nfunc main(a, b uint%d) uint%d {\n\treturn uint%d(a) * uint%d(b)\n}\n", w, 2*w, 2*w, 2*w)
+		}
+		res = append(res, progCase{name: fmt.Sprintf("sweep:mul-uint%d-form%d", w, form), src: src, usesMult: true})
+	}
+	return res
+}
+
 func runProgram(o *hxlib.Out, r *hxlib.Rng, idx int, pc progCase, lim limits, pairsMeta *[]map[string]any) {
 	cfgs := allConfigs()
+	if pc.extreme != nil {
+		cfgs = extremeConfigs(pc)
+	}
 	res := make([]compiled, len(cfgs))
+	compileMs := make([]int64, len(cfgs))
+	t0 := time.Now()
 	base := compileReal(pc.src, cfgs[0])
+	compileMs[0] = time.Since(t0).Milliseconds()
 	res[0] = base
 	kind := strings.SplitN(pc.name, ":", 2)[0]
 	if base.circ == nil {
@@ -487,7 +588,9 @@ func runProgram(o *hxlib.Out, r *hxlib.Rng, idx int, pc progCase, lim limits, pa
 	for i := 1; i < len(cfgs); i++ {
 		// threshold is irrelevant without a multiplication: still compile
 		// (the claim is about the real compiler), but cheap programs only
+		t0 = time.Now()
 		res[i] = compileReal(pc.src, cfgs[i])
+		compileMs[i] = time.Since(t0).Milliseconds()
 		if res[i].circ == nil {
 			d := map[string]any{"case": idx, "prog": pc.name, "src": pc.src,
 				"config_a": cfgs[0].name, "outcome_a": "ok", "config_b": cfgs[i].name, "outcome_b": res[i].err,
@@ -499,7 +602,15 @@ func runProgram(o *hxlib.Out, r *hxlib.Rng, idx int, pc progCase, lim limits, pa
 		}
 		lines[i] = hxlib.CircLine(res[i].circ)
 	}
-	// ---- structural sanity of every compiled circuit
+	// ---- structural sanity of every compiled circuit: single assignment and
+	// every gate input an input wire or the output of an EARLIER gate (the
+	// order Compute, the garbler and the GMW evaluator run the gates in).  A
+	// circuit whose wire ids are in range but whose ORDER is wrong is kept for
+	// the simulation (Compute reads a not yet written wire as 0): the concrete
+	// input on which it then differs is reported first, the structural failure
+	// after it.  The same verdict is asked from the Lean checker `absRun`
+	// (C09_absRun_ssa) on the real circuit through the `topo` op.
+	illFormed := map[int]string{}
 	for i, ri := range res {
 		if ri.circ == nil {
 			continue
@@ -509,12 +620,29 @@ func runProgram(o *hxlib.Out, r *hxlib.Rng, idx int, pc progCase, lim limits, pa
 			res[i].circ = nil
 			continue
 		}
-		if msg := wellFormed(ri.circ); msg != "" {
-			o.Fail("c09-not-wellformed", map[string]any{"case": idx, "prog": pc.name, "src": pc.src, "config_b": cfgs[i].name, "what": msg})
-			res[i].circ = nil
+		msg := wellFormed(ri.circ)
+		if len(ri.circ.Gates) <= lim.maxGatesTopo && len(ri.circ.Gates) > 0 && (i == 0 || lines[i] != baseLine) &&
+			(!lim.topoBaseGMW || i == 0 || cfgs[i].tgt == utils.TargetGMW) {
+			o.Op(fmt.Sprintf("c09 topo %s|%s %s", strings.ReplaceAll(pc.name, " ", "_"), cfgs[i].name, lines[i]),
+				fmt.Sprintf("ssa=%v", msg == ""))
+			o.Count("topo_ops")
+			if cfgs[i].tgt == utils.TargetGMW {
+				o.Count("topo_ops_gmw")
+			}
+		}
+		if msg != "" {
+			if !wiresInRange(ri.circ) {
+				o.Fail("c09-not-wellformed", map[string]any{"case": idx, "prog": pc.name, "src": pc.src, "config_b": cfgs[i].name, "what": msg})
+				res[i].circ = nil
+				continue
+			}
+			illFormed[i] = msg
 		} else if undefinedOutputs(ri.circ) > 0 {
 			o.Count("config_with_undefined_output_wires")
 		}
+	}
+	if pc.extreme != nil {
+		noteShapes(o, pc, cfgs, res, compileMs)
 	}
 	// ---- simulation oracle: all configurations against the base
 	exhaustive := nin <= 16
@@ -580,7 +708,12 @@ func runProgram(o *hxlib.Out, r *hxlib.Rng, idx int, pc progCase, lim limits, pa
 		}
 	}
 	for p := 0; p < passes; p++ {
-		inputWords(r, nin, sizes, exhaustive, p, in)
+		if pc.extreme != nil && !exhaustive && p == 1 {
+			correlatedWords(r, sizes, in)
+			o.Count("sim_correlated_passes")
+		} else {
+			inputWords(r, nin, sizes, exhaustive, p, in)
+		}
 		copy(baseOut, simPass(base.circ, in, scratch))
 		o.CountN("sim_vectors", 64)
 		var zeroDiv uint64
@@ -618,11 +751,11 @@ func runProgram(o *hxlib.Out, r *hxlib.Rng, idx int, pc progCase, lim limits, pa
 			if realDiff != 0 {
 				failed[i] = true
 				x := laneBits(in, lowestLane(realDiff))
-				reportMismatch(o, idx, pc, cfgs[0], cfgs[i], base.circ, res[i].circ, x, sizes, false)
+				reportMismatch(o, idx, pc, cfgs[0], cfgs[i], base.circ, res[i].circ, x, sizes, false, illFormed[i])
 			} else if !divZeroSeen[i] {
 				divZeroSeen[i] = true
 				x := laneBits(in, lowestLane(diff))
-				reportMismatch(o, idx, pc, cfgs[0], cfgs[i], base.circ, res[i].circ, x, sizes, true)
+				reportMismatch(o, idx, pc, cfgs[0], cfgs[i], base.circ, res[i].circ, x, sizes, true, illFormed[i])
 			}
 		}
 	}
@@ -630,6 +763,15 @@ func runProgram(o *hxlib.Out, r *hxlib.Rng, idx int, pc progCase, lim limits, pa
 		o.Count("config_pairs_simulated")
 		if exhaustive {
 			o.Count("config_pairs_exhaustive")
+		}
+	}
+	// the structural failures (after the concrete inputs they lead to); an
+	// ill-ordered circuit takes no further part
+	for i := range res {
+		if msg, bad := illFormed[i]; bad {
+			o.Fail("c09-not-wellformed", map[string]any{"case": idx, "prog": pc.name, "src": pc.src, "config_b": cfgs[i].name, "what": msg,
+				"differs_from_base_on_a_simulated_input": failed[i]})
+			res[i].circ = nil
 		}
 	}
 	if pc.name == "fixed:udiv2" {
@@ -651,7 +793,7 @@ func runProgram(o *hxlib.Out, r *hxlib.Rng, idx int, pc progCase, lim limits, pa
 		if y != nil && g != nil {
 			x := make([]bool, 14)
 			for i := 0; i < 7; i++ {
-				x[i] = true               // a = 127
+				x[i] = true                   // a = 127
 				x[7+i] = (13>>uint(i))&1 == 1 // b = 13
 			}
 			op := fmt.Sprintf("c09 pair fixed:udiv7|witness/127-13 %s %s - - %s", hxlib.CircLine(y), hxlib.CircLine(g), hxlib.BitsString(x))
@@ -674,7 +816,7 @@ func runProgram(o *hxlib.Out, r *hxlib.Rng, idx int, pc progCase, lim limits, pa
 		if C == nil || C2 == nil {
 			return
 		}
-		if len(C.Gates)+len(C2.Gates) > lim.maxGatesPair {
+		if len(C.Gates)+len(C2.Gates) > lim.maxGatesPair || nin > lim.maxInputsPair {
 			o.Count("pair_skipped_too_big")
 			return
 		}
@@ -708,12 +850,25 @@ func runProgram(o *hxlib.Out, r *hxlib.Rng, idx int, pc progCase, lim limits, pa
 		if off == nil || on == nil {
 			continue
 		}
-		if len(off.Gates) > lim.maxGatesPair {
+		if len(off.Gates) > lim.maxGatesPair || nin > lim.maxInputsPair {
 			o.Count("pair_skipped_too_big")
+			if pc.extreme != nil {
+				// too big for the checker: still the level oracle on Compile's own
+				// levels (strict, and for GMW sorted), on the pruned pipeline
+				if st := compileStaged(pc.src, t.tgt, 3, false); st.circ != nil {
+					checkLevels(o, idx, pc, t.tn, st)
+				} else {
+					o.Fail("c09-stage-compile-fails", map[string]any{"case": idx, "prog": pc.name, "src": pc.src,
+						"target": t.tn, "passes": 3, "outcome": st.err})
+				}
+			}
 			continue
 		}
 		var stg [4]staged
 		for st := 0; st <= 3; st++ {
+			if lim.skipRawStages && st < 2 {
+				continue
+			}
 			stg[st] = compileStaged(pc.src, t.tgt, st, st >= 2)
 			if stg[st].circ == nil {
 				o.Fail("c09-stage-compile-fails", map[string]any{"case": idx, "prog": pc.name, "src": pc.src,
@@ -908,9 +1063,17 @@ func lowestLane(m uint64) int {
 
 // reportMismatch records a concrete input on which two configurations differ.
 // divZero: every differing vector of the pass had a zero divisor (probe).
-func reportMismatch(o *hxlib.Out, idx int, pc progCase, ca, cb config, A, B *circuit.Circuit, x []bool, sizes []int, divZero bool) {
+func reportMismatch(o *hxlib.Out, idx int, pc progCase, ca, cb config, A, B *circuit.Circuit, x []bool, sizes []int, divZero bool, illFormedB string) {
 	d := map[string]any{"case": idx, "prog": pc.name, "src": pc.src, "config_a": ca.name, "config_b": cb.name,
-		"x": hxlib.BitsString(x), "args": argsString(x, sizes), "out_a": realCompute(A, x), "out_b": realCompute(B, x)}
+		"x": hxlib.BitsString(x), "args": clip(argsString(x, sizes), 400), "out_a": clip(realCompute(A, x), 400), "out_b": clip(realCompute(B, x), 400),
+		"replay": "c09 replay <this file>: compiles src for config_a and config_b and runs Circuit.Compute on x"}
+	if illFormedB != "" {
+		d["circuit_b_not_topologically_ordered"] = illFormedB
+	}
+	if pc.extreme != nil {
+		d["class"] = pc.extreme.class
+		d["param"] = pc.extreme.param
+	}
 	sig := "c09-prune-mismatch"
 	switch {
 	case cb.tgt != ca.tgt:
@@ -1048,17 +1211,33 @@ func strictLevels(c *circuit.Circuit, gates []circuit.Gate, lv []int) bool {
 // (1) oracle on the real compiled order (GMW: sorted by (Level, AND first);
 // both targets: BFS levels strict); (2) the same comparator under
 // sort.SliceStable on a shuffled copy vs Lean's compileSort.
-func emitSort(o *hxlib.Out, r *hxlib.Rng, idx int, pc progCase, tn string, st staged, x []bool) {
+// checkLevels: the oracle on Compile's own gate levels (Gate.Level read back
+// from the real compiler after Compile, converted to int whatever integer
+// type the field has): every compiled gate has one, every gate input is a
+// circuit input or produced by a gate of strictly smaller level, and for the
+// GMW target the compiled order is sorted by (Level, AND first).  The largest
+// level seen is counted (the model's levels are unbounded naturals: see
+// C09_levels_bounded for where the two meet).
+func checkLevels(o *hxlib.Out, idx int, pc progCase, tn string, st staged) bool {
 	c := st.circ
 	lv := st.levels
+	mx := 0
 	for _, l := range lv {
 		if l < 0 {
 			o.Fail("c09-level-missing", map[string]any{"case": idx, "prog": pc.name, "src": pc.src, "target": tn})
-			return
+			return false
+		}
+		if l > mx {
+			mx = l
 		}
 	}
+	o.Count("levels_checked_" + tn)
+	if mx > o.Counters["max_compile_level_"+tn] {
+		o.Counters["max_compile_level_"+tn] = mx
+	}
 	if !strictLevels(c, c.Gates, lv) {
-		o.Fail("c09-compile-levels-not-strict", map[string]any{"case": idx, "prog": pc.name, "src": pc.src, "target": tn})
+		o.Fail("c09-compile-levels-not-strict", map[string]any{"case": idx, "prog": pc.name, "src": pc.src, "target": tn,
+			"max_level_read_back": mx, "depth_of_compiled_circuit": shapeOf(c).Depth})
 	}
 	if tn == "gmw" {
 		for i := 1; i < len(lv); i++ {
@@ -1068,6 +1247,15 @@ func emitSort(o *hxlib.Out, r *hxlib.Rng, idx int, pc progCase, tn string, st st
 				break
 			}
 		}
+	}
+	return true
+}
+
+func emitSort(o *hxlib.Out, r *hxlib.Rng, idx int, pc progCase, tn string, st staged, x []bool) {
+	c := st.circ
+	lv := st.levels
+	if !checkLevels(o, idx, pc, tn, st) {
+		return
 	}
 	// shuffled copy
 	n := len(c.Gates)
@@ -1110,6 +1298,183 @@ func emitSort(o *hxlib.Out, r *hxlib.Rng, idx int, pc progCase, tn string, st st
 		fmt.Sprintf("strict=%v;topo=%v;g=%s;c=%s", strictLevels(c, shG, shL), topo,
 			strings.SplitN(gatesLine(c, sorted), " ", 4)[3], out))
 	o.Count("sort_ops_compile")
+	if pc.extreme != nil && tn == "gmw" {
+		emitWrapSort(o, pc, tn, c, c.Gates, lv, x, 16)
+	}
+}
+
+// emitWrapSort: Compile's comparator under sort.SliceStable with the levels
+// held in a k-bit unsigned field (replica) against the Lean model
+// `compileSortW k`, on the real compiled gates with their real levels.  For
+// a circuit deeper than 2^k both must say "not topological": the executed
+// form of C09_wrapped_levels_not_topological on a real program.
+func emitWrapSort(o *hxlib.Out, pc progCase, tn string, c *circuit.Circuit, gates []circuit.Gate, lv []int, x []bool, k uint) {
+	n := len(gates)
+	type gl struct {
+		g circuit.Gate
+		l int
+	}
+	sh := make([]gl, n)
+	mx := 0
+	for i := range sh {
+		sh[i] = gl{gates[i], lv[i] & (1<<k - 1)}
+		if lv[i] > mx {
+			mx = lv[i]
+		}
+	}
+	sort.SliceStable(sh, func(i, j int) bool {
+		gi, gj := sh[i], sh[j]
+		if gi.l != gj.l {
+			return gi.l < gj.l
+		}
+		return gi.g.Op == circuit.AND && gj.g.Op != circuit.AND
+	})
+	sorted := make([]circuit.Gate, n)
+	for i := range sh {
+		sorted[i] = sh[i].g
+	}
+	sc := &circuit.Circuit{NumGates: n, NumWires: c.NumWires, Inputs: c.Inputs, Outputs: c.Outputs, Gates: sorted}
+	topo := wellFormed(sc) == ""
+	tag := strings.ReplaceAll(pc.name, " ", "_") + fmt.Sprintf("|w%d-", k) + tn
+	o.Op(fmt.Sprintf("c09 sort %s w%d %s %s %s", tag, k, gatesLine(c, gates), intsString(lv), hxlib.BitsString(x)),
+		fmt.Sprintf("strict=%v;topo=%v;g=%s;c=%s", strictLevels(c, gates, lv), topo,
+			strings.SplitN(gatesLine(c, sorted), " ", 4)[3], realCompute(sc, x)))
+	o.Count("sort_ops_wrapped")
+	if mx >= 1<<k {
+		o.Count("sort_ops_wrapped_beyond_field")
+		if !topo {
+			o.Count("sort_ops_wrapped_beyond_field_not_topological")
+		}
+	}
+}
+
+// emitChains: the witness family of C09_wrapped_levels_not_topological /
+// C09_wrapped_levels_wrong_output executed for k = 1..kmax: the chain of
+// 2^k+1 INV gates, levels 0..2^k held in a k-bit field, Compile's comparator
+// under sort.SliceStable, evaluated by Circuit.Compute on x = 1 (replica)
+// against the compiled Lean model (op `chain`).
+func emitChains(o *hxlib.Out, kmax int) {
+	for k := 1; k <= kmax; k++ {
+		n := 1<<uint(k) + 1
+		type gl struct {
+			g circuit.Gate
+			l int
+		}
+		sh := make([]gl, n)
+		ref := make([]circuit.Gate, n)
+		for j := range sh {
+			g := circuit.Gate{Op: circuit.INV, Input0: circuit.Wire(j), Input1: circuit.Wire(j), Output: circuit.Wire(j + 1)}
+			ref[j] = g
+			sh[j] = gl{g, j & (1<<uint(k) - 1)}
+		}
+		sort.SliceStable(sh, func(i, j int) bool {
+			gi, gj := sh[i], sh[j]
+			if gi.l != gj.l {
+				return gi.l < gj.l
+			}
+			return gi.g.Op == circuit.AND && gj.g.Op != circuit.AND
+		})
+		sorted := make([]circuit.Gate, n)
+		for i := range sh {
+			sorted[i] = sh[i].g
+		}
+		io1 := circuit.IO{hxlib.UintIO("x", 1)}
+		rc := &circuit.Circuit{NumGates: n, NumWires: n + 1, Inputs: io1, Outputs: io1, Gates: ref}
+		sc := &circuit.Circuit{NumGates: n, NumWires: n + 1, Inputs: io1, Outputs: io1, Gates: sorted}
+		x := []bool{true}
+		o.Op(fmt.Sprintf("c09 chain k%d %d", k, k), fmt.Sprintf("topo=%v;g=%s;c=%s;ref=%s", wellFormed(sc) == "",
+			strings.SplitN(hxlib.CircLine(sc), " ", 4)[3], realCompute(sc, x), realCompute(rc, x)))
+		o.Count("chain_ops")
+		if wellFormed(sc) != "" && realCompute(sc, x) != realCompute(rc, x) {
+			o.Count("chain_ops_not_topological_and_wrong")
+		}
+	}
 }
 
 var _ = io.Discard
+
+// replay re-runs exactly one recorded failing case (`c09 replay <replay
+// file>`): the program of the failure is compiled for its two configurations
+// by the real compiler and both circuits are evaluated by Circuit.Compute on
+// the recorded input.  Exit 1: the failure is reproduced (outputs differ, a
+// compile outcome differs, or the circuit of config_b is not topologically
+// ordered); 0: not reproduced; 3: the file holds no case of this form.
+func replay(args []string) int {
+	if len(args) < 1 {
+		return 3
+	}
+	b, err := os.ReadFile(args[0])
+	if err != nil {
+		fmt.Fprintln(os.Stderr, err)
+		return 3
+	}
+	var doc struct {
+		Failure map[string]any `json:"failure"`
+	}
+	if json.Unmarshal(b, &doc) != nil || doc.Failure == nil {
+		return 3
+	}
+	f := doc.Failure
+	str := func(k string) string { s, _ := f[k].(string); return s }
+	src, na, nb, xs := str("src"), str("config_a"), str("config_b"), str("x")
+	if src == "" || nb == "" {
+		return 3
+	}
+	if na == "" {
+		na = "yao-thr0-prune0"
+	}
+	var ca, cb *config
+	all := append(allConfigs(), extremeConfigs(progCase{usesMult: true})...)
+	for i := range all {
+		if all[i].name == na && ca == nil {
+			ca = &all[i]
+		}
+		if all[i].name == nb && cb == nil {
+			cb = &all[i]
+		}
+	}
+	if ca == nil || cb == nil {
+		return 3
+	}
+	devnull, _ := os.OpenFile(os.DevNull, os.O_WRONLY, 0)
+	stdout := os.Stdout
+	if devnull != nil {
+		os.Stdout = devnull
+	}
+	A, B := compileReal(src, *ca), compileReal(src, *cb)
+	os.Stdout = stdout
+	fmt.Printf("sig=%s prog=%s\n%s: %s\n%s: %s\n", str("sig"), str("prog"), na, outcome(A), nb, outcome(B))
+	if (A.circ == nil) != (B.circ == nil) {
+		fmt.Println("REPRODUCED: compile outcome differs")
+		return 1
+	}
+	if A.circ == nil {
+		return 0
+	}
+	rc := 0
+	if msg := wellFormed(B.circ); msg != "" {
+		fmt.Printf("REPRODUCED: circuit of %s is not single-assignment / topologically ordered: %s\n", nb, msg)
+		rc = 1
+	}
+	if xs != "" && len(xs) == A.circ.Inputs.Size() && wiresInRange(B.circ) {
+		x := make([]bool, len(xs))
+		for i := range xs {
+			x[i] = xs[i] == '1'
+		}
+		oa, ob := realCompute(A.circ, x), realCompute(B.circ, x)
+		fmt.Printf("input args: %s\nCompute under %s: %s\nCompute under %s: %s\n", clip(argsString(x, argSizes(A.circ.Inputs)), 300), na, clip(oa, 300), nb, clip(ob, 300))
+		if oa != ob {
+			fmt.Println("REPRODUCED: the two configurations give different outputs on this input")
+			rc = 1
+		}
+	}
+	return rc
+}
+
+func outcome(c compiled) string {
+	if c.circ == nil {
+		return c.err
+	}
+	s := shapeOf(c.circ)
+	return fmt.Sprintf("ok gates=%d wires=%d depth=%d width=%d fanout=%d", s.Gates, s.Wires, s.Depth, s.Width, s.Fanout)
+}
